@@ -206,7 +206,31 @@ def run(prog: Program, res: Result, tier: str) -> None:
     signs = [d for d in flow.defs if d.kind == "assign" and isinstance(d.value, ast.IfExp) and isinstance(d.value.test, ast.Compare)
              and isinstance(d.value.test.ops[0], ast.Lt) and norm(d.value.test.comparators[0]) == "0"]
     key = "parse_radec:sign"
-    if len(signs) != 1:
+    # the usual form: a '-'/'+' string chosen by the sign of the packed declination, written immediately before the degrees
+    from ..pathcond import normal_compare as _ncmp
+    from ..poly import Poly as _Poly, PolyEnv as _PEnv
+    str_sign_ok = False
+    for r_ in [s_ for s_ in body_walk(pr.node) if isinstance(s_, ast.Return) and s_.value is not None]:
+        ex_ = flow.expand(r_.value, flow.cfg.node_for(r_))
+        for js in [n for n in ast.walk(ex_) if isinstance(n, ast.JoinedStr)]:
+            vals = js.values
+            for i_, fv in enumerate(vals[:-1]):
+                if not (isinstance(fv, ast.FormattedValue) and isinstance(fv.value, ast.IfExp)):
+                    continue
+                ie = fv.value
+                if not (isinstance(ie.test, ast.Compare) and len(ie.test.ops) == 1 and isinstance(ie.body, ast.Constant) and isinstance(ie.orelse, ast.Constant)):
+                    continue
+                nc = _ncmp(_PEnv().poly(ie.test.left), type(ie.test.ops[0]), _PEnv().poly(ie.test.comparators[0]))
+                neg_first = nc == ("<0", _Poly.sym("src_dej"))
+                pos_first = nc == ("<=0", -_Poly.sym("src_dej"))
+                minus, other = (ie.body.value, ie.orelse.value) if neg_first else (ie.orelse.value, ie.body.value) if pos_first else (None, None)
+                nxt = vals[i_ + 1]
+                if minus == "-" and other in ("+", "") and isinstance(nxt, ast.FormattedValue) and \
+                        canon(nxt.value) == canon("int(divmod(abs(src_dej), 10000)[0])"):
+                    str_sign_ok = True
+    if str_sign_ok:
+        res.ok("R4", pr, pr.node, "the sign is written as a '-'/'+' prefix of the degrees field, independent of their value", key=key, construct="sign")
+    elif len(signs) != 1:
         # alternative: np.sign / copysign / formatting the float with sign
         res.bad("R4", pr, pr.node, "cannot find how the sign of the declination is carried", construct="parse_radec", key=key)
     else:
